@@ -216,7 +216,9 @@ where
     #[allow(clippy::should_implement_trait)]
     #[inline]
     pub fn next(&mut self) -> Option<Result<(&mut R, O), E>> {
-        self.done_recv.recv().unwrap().map(move |result| {
+        // a closed channel means that the reader thread is gone
+        // (e.g. because the reader could not be initialized)
+        self.done_recv.recv().unwrap_or(None).map(move |result| {
             match result {
                 Ok((r, o)) => {
                     let prev_rset = ::std::mem::replace(&mut self.current_recordset, r);
